@@ -379,13 +379,41 @@ func (g *gen) generate(n int) {
 			for tc := 0; tc < 4; tc++ {
 				ninf, pinf, x := math.Inf(-1), math.Inf(1), genF(r, "small")
 				pairs := [][2]float64{{ninf, ninf}, {ninf, x}, {x, ninf}, {pinf, pinf}, {x, pinf}}
-				pr := pairs[(rep+tc)%len(pairs)]
-				ta, tb := tc, []int{tc, 0, 1, 2, 3}[r.Intn(5)]
-				if isConcrete(op) {
-					tb = tc
+				for pi, pr := range pairs {
+					ta, tb := tc, []int{tc, 0, 1, 2, 3}[r.Intn(5)]
+					if isConcrete(op) || pi != (rep+tc)%len(pairs) {
+						tb = tc
+					}
+					g.emit(Case{Op: op, TC: tc, TT: []int{tc}, A: []V{VFl(ta, pr[0]), VFl(tb, pr[1])}, Order: g.order(ta, tb)}, "composite-special")
 				}
-				g.emit(Case{Op: op, TC: tc, TT: []int{tc}, A: []V{VFl(ta, pr[0]), VFl(tb, pr[1])}, Order: g.order(ta, tb)}, "composite-special")
+				// the rest of the extended table (coq/C02/Ext.v: elogadd / elogsub): +Inf first, mixed infinities, NaN on
+				// either side, and for LogSub the finite cases a < b (NaN) and a = b (-Inf)
+				nan := math.NaN()
+				y := x + math.Abs(genF(r, "small")) + 0.25
+				more := [][2]float64{{pinf, x}, {pinf, ninf}, {ninf, pinf}, {nan, x}, {x, nan}, {nan, nan}, {nan, ninf}, {pinf, nan}, {x, y}, {x, x}}
+				for k := 0; k < 2; k++ {
+					pr := more[(2*rep+2*tc+k)%len(more)]
+					g.emit(Case{Op: op, TC: tc, TT: []int{tc}, A: []V{VFl(tc, pr[0]), VFl(tc, pr[1])}}, "composite-special")
+				}
 			}
+		}
+		// Sigmoid (two branches on the sign) at +-0, +-Inf, NaN on the float receivers
+		for tc := 0; tc < 4; tc++ {
+			for k := 0; k < 2; k++ {
+				sp := specials[(rep+tc+k*2)%len(specials)]
+				g.emit(Case{Op: "Sigmoid", TC: tc, TT: []int{tc}, A: []V{VFl(tc, sp)}}, "composite-special")
+			}
+		}
+		// domain edges of the logarithms: Log(0) = -Inf, Log(x<0) = NaN, Log1p(-1) = -Inf, Log1p(x<-1) = NaN, Sqrt(x<0)
+		for tc := 0; tc < 4; tc++ {
+			edges := []struct {
+				op string
+				x  float64
+			}{{"Log", -genF(r, "pos")}, {"Log1p", -1}, {"Log1p", -1 - genF(r, "pos")}, {"Sqrt", -genF(r, "pos")}, {"SQRT", -genF(r, "pos")}, {"LOG", -genF(r, "pos")}}
+			e := edges[(rep+tc)%len(edges)]
+			g.emit(Case{Op: e.op, TC: tc, A: []V{VFl(tc, e.x)}}, "unary-special")
+			e = edges[(rep+tc+3)%len(edges)]
+			g.emit(Case{Op: e.op, TC: tc, A: []V{VFl(tc, e.x)}}, "unary-special")
 		}
 		// special functions with a parameter
 		for _, op := range []string{"Mlgamma", "GammaP", "BesselI", "LogBesselI"} {
@@ -474,6 +502,58 @@ func (g *gen) generate(n int) {
 					c.X = vec(c.N * c.M)
 				}
 				g.emit(c, "reduction")
+			}
+		}
+		// SmoothMax / LogSmoothMax on vectors containing zeros and negative elements (round 1: positive vectors only).
+		// LogSmoothMax takes log(x_i): a zero contributes -Inf (i.e. nothing) to the numerator, a negative element gives NaN.
+		for tc := 0; tc < NRECV; tc++ {
+			if !isF(tc) && (rep+tc)%3 != 0 {
+				continue // integer receivers: one in three (every step truncates; bit-exact tie only)
+			}
+			pos := func() V { return genV(r, tc, "pos") }
+			zero := func() V {
+				if isF(tc) {
+					return VFl(tc, []float64{0, math.Copysign(0, -1)}[r.Intn(2)])
+				}
+				return VIn(tc, 0)
+			}
+			negv := func() V {
+				v := pos()
+				if isF(tc) {
+					return VFl(tc, -v.fl())
+				}
+				return VIn(tc, -v.Z)
+			}
+			pats := [][]V{{zero(), pos(), pos()}, {pos(), zero()}, {zero(), zero()}, {zero()}, {negv(), pos()}, {pos(), zero(), negv()}, {negv(), negv()}}
+			for k := 0; k < 3; k++ {
+				x := pats[(rep*3+tc+k)%len(pats)]
+				al := []float64{1, 2, 0.5, 3}[r.Intn(4)]
+				g.emit(Case{Op: "LogSmoothMax", TC: tc, TV: tc, TT: []int{tc, tc, tc}, X: x, P: fstr(al)}, "reduction-signs")
+				al = []float64{1, -1, 0.5, 10, -2}[r.Intn(5)]
+				g.emit(Case{Op: "SmoothMax", TC: tc, TV: tc, TT: []int{tc, tc}, X: x, P: fstr(al)}, "reduction-signs")
+			}
+		}
+		// ConvertScalar between integer types at the extremes: |v| > 2^53 must survive 64-bit -> 64-bit exactly (a route through
+		// float64 loses the low bits) and narrowing must wrap like Go's intK(intL) (a route through float64 is out of range).
+		// Stratified so that every (source, target) pair of integer types is visited in every repetition.
+		for _, ta := range []int{5, 6, 7, 8} {
+			b := bitsOf(ta)
+			mx := int64(1)<<(b-1) - 1
+			if b == 64 {
+				mx = math.MaxInt64
+			}
+			vals := []int64{mx, -mx - 1, mx - 1, -mx, 300, -129}
+			if b == 64 {
+				vals = []int64{9007199254740993, -9007199254740993, mx, -mx - 1, mx - 1, 4611686018427387905, 2147483648 + 7, -32769}
+			} else if b == 32 {
+				vals = append(vals, 65536+5, 16777217, -16777217)
+			}
+			for ti, tg := range []int{0, 1, 4, 5, 6, 7, 8} {
+				if tg == ta {
+					continue
+				}
+				v := vals[(rep+ti)%len(vals)]
+				g.emit(Case{Op: "ConvertScalar", TC: ta, A: []V{VIn(ta, v)}, Tgt: tg}, "convert-strata")
 			}
 		}
 		// conversions and constructors
@@ -641,6 +721,28 @@ func (g *gen) writeCerts(dir string, capGoals, perFile int) map[string]int {
 			"Definition ex : list bool := [\n  " + strings.Join(exact, ";\n  ") + "].\n" +
 			"Definition M := Eval vm_compute in (mismatches (fun b : bool => b) ex).\nPrint M.\n"
 		os.WriteFile(filepath.Join(dir, fmt.Sprintf("cert_%d.v", nf)), []byte(body), 0644)
+		nf++
+	}
+	// the special-value table of coq/C02/Ext.v (fn_special / fn_edge): every recorded call of an elementary function whose
+	// argument is +-Inf / NaN, or whose result is +-Inf / NaN / 0 (domain edges), checked by CorrExt.special_ok
+	var sp []string
+	for _, k := range keys {
+		e := g.cert[k]
+		if e.id < 1 || e.id > 13 {
+			continue
+		}
+		nf64 := func(x float64) bool { return math.IsNaN(x) || math.IsInf(x, 0) }
+		if nf64(e.a) || nf64(e.r) || e.r == 0 || e.a == 0 || e.a == -1 {
+			sp = append(sp, fmt.Sprintf("(%d, %s, %s, %s)", e.id, F(e.a), F(e.b), F(e.r)))
+			stats["special-table"]++
+		}
+	}
+	if len(sp) > 0 {
+		sort.Strings(sp)
+		body := "From Coq Require Import ZArith List Floats.\nFrom ADV Require Import Base.Corr C02.Model C02.Corr C02.Ext C02.CorrExt.\nImport ListNotations.\nOpen Scope Z_scope.\n" +
+			"Definition ents : list oentry := [\n  " + strings.Join(sp, ";\n  ") + "].\n" +
+			"Definition M := Eval vm_compute in (mismatches special_ok ents).\nPrint M.\n"
+		os.WriteFile(filepath.Join(dir, "cert_special.v"), []byte(body), 0644)
 		nf++
 	}
 	stats["goal-files"] = nf
